@@ -188,3 +188,28 @@ def crit_atoms(term):
     out = []
     T.walk(term, lambda t: out.append(t) if (t[0] == 'call' and t[1] == 'inverse_cdf') else None)
     return out
+
+
+class nonneg_crit:
+    """Context manager: declare the critical value z = inverse_cdf(dist(0,..), q) non-negative for the
+    normal form (valid for two-sided confidence, q = (1+L)/2 > 1/2; contract of a zero-location
+    symmetric distribution), so that sqrt(z^2 * P) and z * sqrt(P) are recognised as equal there."""
+
+    def __init__(self, nf, z_term, on=True):
+        self.nf, self.on = nf, on
+        self.atoms = []
+        if on:
+            rf = nf.of_term(z_term)
+            for m in rf.num:
+                for a, e in m:
+                    self.atoms.append(a)
+
+    def __enter__(self):
+        self.added = [a for a in self.atoms if a not in self.nf.nonneg]
+        for a in self.added:
+            self.nf.nonneg.add(a)
+        return self
+
+    def __exit__(self, *a):
+        for a_ in self.added:
+            self.nf.nonneg.discard(a_)
